@@ -2,7 +2,9 @@
    annotations (RuntimeVisibleAnnotations / RuntimeInvisibleAnnotations: element_value trees, JVMS 4.7.16),
    AnnotationDefault (one element_value), the attributes whose body is one constant pool index of a string
    (Signature, SourceFile) and the attributes that are rows of pool indices and flags (InnerClasses, EnclosingMethod,
-   NestHost, NestMembers, PermittedSubclasses, ModuleMainClass, ModulePackages, Exceptions, MethodParameters).
+   NestHost, NestMembers, PermittedSubclasses, ModuleMainClass, ModulePackages, Exceptions, MethodParameters), and type
+   annotations (RuntimeVisibleTypeAnnotations / RuntimeInvisibleTypeAnnotations: target_type and target_info per location,
+   type_path, annotation; JVMS 4.7.20).
    Definitions only.
 
    The parser follows `read_annotations_attribute`, `read_element_values_named`, `read_element_values_unnamed` and
@@ -243,13 +245,170 @@ Fixpoint assoc_layout (name : str) (l : list (str * layout)) : option layout :=
   | (k, v) :: l' => if str_eqb name k then Some v else assoc_layout name l'
   end.
 
+(* ---------- type annotations (JVMS 4.7.20): target_type, target_info, type_path, then an annotation ----------
+   `read_type_annotations_attribute` / `read_type_annotations_attribute_code`: a u16 count; per type annotation
+   `read_type_reference` (the impl of TargetInfoRead that the location's visitor trait demands; inside Code:
+   `read_type_reference_code`) — one u8 target_type selecting the arm, then the fields the arm reads —, `read_type_path`,
+   a u16 type index and the named element values at nesting 0.  Which target types a location admits and what each arm
+   reads come from the generated table. *)
+Inductive tfield :=
+| TU8                 (* reader.read_u8() *)
+| TU16                (* reader.read_u16() *)
+| TOff                (* labels.get_or_create(reader.read_u16()): a bytecode offset, handed over as a label *)
+| TTable.             (* u16 count, then per row start_pc, length (-> a label range), local variable index: three u16 *)
+Inductive tval := TVNum (n : N) | TVTable (rows : list (N * N * N)).
+
+Record tannot := mkTA {
+  ta_tag : N;                      (* target_type *)
+  ta_info : list tval;             (* target_info: one value per field the arm reads *)
+  ta_path : list (N * N);          (* type_path: type_path_kind, type_argument_index *)
+  ta_type : N;                     (* type_index *)
+  ta_pairs : list (N * evalue);    (* element_value_pairs *)
+}.
+
+Definition ttable := list (N * list tfield).          (* target_type -> the fields its arm reads *)
+Record tytable := mkTY {
+  ty_targets : list (N * ttable);  (* location (0 class, 1 field, 2 method, 3 Code, 4 record component) -> its arms *)
+  ty_path : list (N * bool);       (* type_path_kind -> does it carry an index (otherwise type_argument_index must be 0) *)
+}.
+
+Fixpoint loop_trows (n : nat) (s : bytes) : res (list (N * N * N) * bytes) :=
+  match n with
+  | O => Ok ([], s)
+  | S n' =>
+    match rd16 s with Err => Err | Ok (a, s1) =>
+    match rd16 s1 with Err => Err | Ok (b, s2) =>
+    match rd16 s2 with Err => Err | Ok (c, s3) =>
+    match loop_trows n' s3 with Err => Err | Ok (l, s4) => Ok ((a, b, c) :: l, s4) end end end end
+  end.
+Definition p_tfield (f : tfield) (s : bytes) : res (tval * bytes) :=
+  match f with
+  | TU8 => match rd8 s with Err => Err | Ok (x, s1) => Ok (TVNum x, s1) end
+  | TU16 | TOff => match rd16 s with Err => Err | Ok (x, s1) => Ok (TVNum x, s1) end
+  | TTable => match rd16 s with Err => Err | Ok (n, s1) =>
+              match loop_trows (N.to_nat n) s1 with Err => Err | Ok (rows, s2) => Ok (TVTable rows, s2) end end
+  end.
+Fixpoint p_tfields (fs : list tfield) (s : bytes) : res (list tval * bytes) :=
+  match fs with
+  | [] => Ok ([], s)
+  | f :: fs' =>
+    match p_tfield f s with Err => Err | Ok (v, s1) =>
+    match p_tfields fs' s1 with Err => Err | Ok (l, s2) => Ok (v :: l, s2) end end
+  end.
+(* `match reader.read_u8()? { … tag => bail!(…) }` *)
+Definition p_target (tbl : ttable) (s : bytes) : res (N * list tval * bytes) :=
+  match rd8 s with Err => Err | Ok (t, s1) =>
+  match assocN t tbl with
+  | None => Err
+  | Some fs => match p_tfields fs s1 with Err => Err | Ok (vs, s2) => Ok (t, vs, s2) end
+  end end.
+(* read_type_path: u8 path_length; per entry u8 kind, u8 index; a kind without index demands index 0 *)
+Fixpoint loop_path (K : list (N * bool)) (n : nat) (s : bytes) : res (list (N * N) * bytes) :=
+  match n with
+  | O => Ok ([], s)
+  | S n' =>
+    match rd8 s with Err => Err | Ok (k, s1) =>
+    match rd8 s1 with Err => Err | Ok (i, s2) =>
+    match assocN k K with
+    | None => Err
+    | Some indexed =>
+      if indexed || (i =? 0) then
+        match loop_path K n' s2 with Err => Err | Ok (l, s3) => Ok ((k, i) :: l, s3) end
+      else Err
+    end end end
+  end.
+Definition p_type_path (K : list (N * bool)) (s : bytes) : res (list (N * N) * bytes) :=
+  match rd8 s with Err => Err | Ok (n, s1) => loop_path K (N.to_nat n) s1 end.
+
+Definition p_tannot (X : xtable) (K : list (N * bool)) (tbl : ttable) (s : bytes) : res (tannot * bytes) :=
+  match p_target tbl s with Err => Err | Ok (t, vs, s1) =>
+  match p_type_path K s1 with Err => Err | Ok (path, s2) =>
+  match rd16 s2 with Err => Err | Ok (ty, s3) =>
+  match rd16 s3 with Err => Err | Ok (np, s4) =>
+  match loop_pairs (p_value X (xt_depth X)) (N.to_nat np) s4 with Err => Err | Ok (ps, s5) =>
+    Ok (mkTA t vs path ty ps, s5)
+  end end end end end.
+Fixpoint loop_tannots (X : xtable) (K : list (N * bool)) (tbl : ttable) (n : nat) (s : bytes) : res (list tannot * bytes) :=
+  match n with
+  | O => Ok ([], s)
+  | S n' =>
+    match p_tannot X K tbl s with Err => Err | Ok (a, s1) =>
+    match loop_tannots X K tbl n' s1 with Err => Err | Ok (l, s2) => Ok (a :: l, s2) end end
+  end.
+Definition p_type_annotations (X : xtable) (Y : tytable) (loc : N) (s : bytes) : res (list tannot * bytes) :=
+  match assocN loc (ty_targets Y) with
+  | None => Err
+  | Some tbl => match rd16 s with Err => Err | Ok (n, s1) => loop_tannots X (ty_path Y) tbl (N.to_nat n) s1 end
+  end.
+
+(* the encoding (JVMS 4.7.20, 4.7.20.1, 4.7.20.2) *)
+Definition enc_trows (rows : list (N * N * N)) : bytes :=
+  flat_map (fun r => e16 (fst (fst r)) ++ e16 (snd (fst r)) ++ e16 (snd r)) rows.
+Definition enc_tval (f : tfield) (v : tval) : bytes :=
+  match f, v with
+  | TU8, TVNum x => [x]
+  | TU16, TVNum x | TOff, TVNum x => e16 x
+  | TTable, TVTable rows => e16 (elen rows) ++ enc_trows rows
+  | _, _ => []
+  end.
+Fixpoint enc_tvals (fs : list tfield) (vs : list tval) : bytes :=
+  match fs, vs with
+  | f :: fs', v :: vs' => enc_tval f v ++ enc_tvals fs' vs'
+  | _, _ => []
+  end.
+Definition enc_path (path : list (N * N)) : bytes := elen path :: flat_map (fun p => [fst p; snd p]) path.
+Definition enc_tannot (X : xtable) (tbl : ttable) (a : tannot) : bytes :=
+  ta_tag a :: enc_tvals (match assocN (ta_tag a) tbl with Some fs => fs | None => [] end) (ta_info a)
+  ++ enc_path (ta_path a) ++ e16 (ta_type a) ++ e16 (elen (ta_pairs a)) ++ enc_pairs X (ta_pairs a).
+Definition enc_type_annotations (X : xtable) (tbl : ttable) (l : list tannot) : bytes :=
+  e16 (elen l) ++ flat_map (enc_tannot X tbl) l.
+
+(* a value fits the field it is read from; the target type has an arm; path kinds exist and carry an index only where
+   the reader admits one; the element values as in [annotation_ok] *)
+Definition tval_fits (f : tfield) (v : tval) : bool :=
+  match f, v with
+  | TTable, TVTable _ => true
+  | TTable, _ | _, TVTable _ => false
+  | _, TVNum _ => true
+  end.
+Fixpoint tvals_fit (fs : list tfield) (vs : list tval) : bool :=
+  match fs, vs with
+  | [], [] => true
+  | f :: fs', v :: vs' => tval_fits f v && tvals_fit fs' vs'
+  | _, _ => false
+  end.
+Definition path_ok (K : list (N * bool)) (path : list (N * N)) : bool :=
+  forallb (fun p => match assocN (fst p) K with Some indexed => indexed || (snd p =? 0) | None => false end) path.
+Definition tannot_ok (X : xtable) (K : list (N * bool)) (tbl : ttable) (a : tannot) : bool :=
+  match assocN (ta_tag a) tbl with Some fs => tvals_fit fs (ta_info a) | None => false end
+  && path_ok K (ta_path a)
+  && annotation_ok X (ta_type a, ta_pairs a).
+
+(* what the visitor is handed: target_type and the fields of target_info as numbers (a label as the bytecode offset it
+   stands for, a range as start_pc and length), the path, then the annotation resolved as [canon_annotation] *)
+Definition canon_tval (v : tval) : list N :=
+  match v with
+  | TVNum n => [n]
+  | TVTable rows => elen rows :: flat_map (fun r => [fst (fst r); snd (fst r); snd r]) rows
+  end.
+Definition canon_tannot (X : xtable) (rs : resolver) (a : tannot) : list N :=
+  ta_tag a :: flat_map canon_tval (ta_info a)
+  ++ elen (ta_path a) :: flat_map (fun p => [fst p; snd p]) (ta_path a)
+  ++ canon_annotation X rs (ta_type a, ta_pairs a).
+Definition canon_type_annotations (X : xtable) (rs : resolver) (l : list tannot) : list N :=
+  elen l :: flat_map (canon_tannot X rs) l.
+
 (* which attributes are read how (names from the generated table) *)
-Record vnames := mkVN { vn_annotations : list str; vn_element : str; vn_index : list str; vn_layouts : list (str * layout) }.
+Record vnames := mkVN { vn_annotations : list str; vn_element : str; vn_index : list str; vn_layouts : list (str * layout);
+                        vn_type_annotations : list str; vn_types : tytable }.
 
 (* name, raw, body -> the value handed over; None: not one of the attributes modelled here, or the body is not
    (exactly) an encoding *)
-Definition attr_value (X : xtable) (V : vnames) (rs : resolver) (name : str) (raw : bool) (body : bytes) : option (list N) :=
+Definition attr_value (X : xtable) (V : vnames) (rs : resolver) (loc : N) (name : str) (raw : bool) (body : bytes) : option (list N) :=
   if raw then None
+  else if existsb (str_eqb name) (vn_type_annotations V) then
+    (* the one attribute whose grammar depends on WHERE it stands: loc = 0 class, 1 field, 2 method, 3 Code, 4 record component *)
+    match p_type_annotations X (vn_types V) loc body with Ok (l, []) => Some (canon_type_annotations X rs l) | _ => None end
   else if existsb (str_eqb name) (vn_annotations V) then
     match p_annotations X body with Ok (l, []) => Some (canon_annotations X rs l) | _ => None end
   else if str_eqb name (vn_element V) then
@@ -263,5 +422,5 @@ Definition attr_value (X : xtable) (V : vnames) (rs : resolver) (name : str) (ra
 
 (* is [name] one of the attributes whose value is modelled *)
 Definition valued (V : vnames) (name : str) : bool :=
-  existsb (str_eqb name) (vn_annotations V) || str_eqb name (vn_element V) || existsb (str_eqb name) (vn_index V)
+  existsb (str_eqb name) (vn_type_annotations V) || existsb (str_eqb name) (vn_annotations V) || str_eqb name (vn_element V) || existsb (str_eqb name) (vn_index V)
   || match assoc_layout name (vn_layouts V) with Some _ => true | None => false end.
